@@ -18,7 +18,7 @@ CLAIMED = {
  "C10": ("5 C10", HIST + "batch-height tracker: first batch, cadence, total, no overlap"),
  "C11": ("5 C11", HIST + "queue/index/pending-marker invariant over the raw scan after every step"),
  "C12": ("5 C12", HIST + "batch bookkeeping model and recording callbacks of an emulated consumer module"),
- "C13": ("5 C13", HIST + "owner/provider earnings invariant and exact withdrawal accounting incl. prefix-related addresses"),
+ "C13": ("5 C13", HIST + "owner/provider earnings invariant and exact withdrawal accounting incl. prefix-related addresses; plus stateless property-based checks (rapid) of one withdrawal in generated keeper-level states holding earnings in two denominations"),
  "C14": ("5 C14", HIST + "minimum-deposit invariant recomputed from the pricing text"),
  "C15": ("5 C15", HIST + "definition/binding/index stability invariants + listing differential against the raw scan"),
  "C16": ("5 C16", HIST + "orphan-freedom invariant and finished-context removal rule after every block end"),
